@@ -631,9 +631,41 @@ Qed.
 Definition undecoded_val (keep : bool) (v : string) : bool :=
   match spec_decode keep v with Some d => negb (String.eqb d v) | None => false end.
 
-(** C03-F6: the matcher does not decode (off, or no RawPath) a value that decoding changes *)
-Definition guard_F6 (sl : slash) (q : request) (v : string) : bool :=
-  (slash_eqb sl SOff || String.eqb (q_rawpath q) "") && undecoded_val (keep_slash_of sl) v.
+(** C03-F6: the matcher does not decode a value that decoding changes — pinned tree (before
+    commit 72ba5d4): under `off`, or without RawPath; now: only without RawPath (which no
+    entry point produces for a non-empty path any more) *)
+Definition guard_F6 (fx6 : bool) (sl : slash) (q : request) (v : string) : bool :=
+  ((negb fx6 && slash_eqb sl SOff) || String.eqb (q_rawpath q) "") && undecoded_val (keep_slash_of sl) v.
+
+(** the value comes from the request's raw path: an encoded slash in it is one of the path *)
+Definition from_path (q : request) (v : string) : Prop :=
+  has_enc_slash v = true -> has_enc_slash (q_rawpath q) = true.
+
+(** a value without encoded slash is decoded the same way under every setting *)
+Lemma keep_irrelevant v : has_enc_slash v = false -> spec_decode true v = spec_decode false v.
+Proof.
+  unfold has_enc_slash.
+  induction v as [| c r Hc IH | a b r IH | | a] using pct_ind; intro H; try reflexivity.
+  - rewrite !spec_decode_nonpct by assumption. rewrite IH; [reflexivity|].
+    rewrite !contains_cons in H. apply orb_false_iff in H as [H1 H2].
+    apply orb_false_iff in H1 as [_ H1]. apply orb_false_iff in H2 as [_ H2]. rewrite H1, H2. reflexivity.
+  - destruct (hexval a) as [x|] eqn:Ha; [|unfold pct; simpl; rewrite Ha; reflexivity].
+    destruct (hexval b) as [y|] eqn:Hb; [|unfold pct; simpl; rewrite Ha, Hb; reflexivity].
+    rewrite !(spec_decode_esc _ _ _ _ _ _ Ha Hb).
+    assert (Hr : contains "%2F" r || contains "%2f" r = false).
+    { rewrite !contains_cons in H. apply orb_false_iff in H as [H1 H2].
+      apply orb_false_iff in H1 as [_ H1]. apply orb_false_iff in H1 as [_ H1]. apply orb_false_iff in H1 as [_ H1].
+      apply orb_false_iff in H2 as [_ H2]. apply orb_false_iff in H2 as [_ H2]. apply orb_false_iff in H2 as [_ H2].
+      rewrite H1, H2. reflexivity. }
+    rewrite (IH Hr).
+    assert (Hns : Ascii.eqb (ascii_of_N (16 * x + y)) "/" = false).
+    { apply Ascii.eqb_neq. intro E. destruct (slash_escape _ _ _ _ Ha Hb E) as [-> [-> | ->]].
+      - rewrite contains_cons in H. apply orb_false_iff in H as [H _]. apply orb_false_iff in H as [H _].
+        rewrite !prefix_cons, prefix_nil_l in H. discriminate.
+      - rewrite !contains_cons in H. apply orb_false_iff in H as [_ H]. apply orb_false_iff in H as [H _].
+        rewrite !prefix_cons, prefix_nil_l in H. discriminate. }
+    rewrite Hns, andb_false_r. reflexivity.
+Qed.
 
 (** C03-F7 (pinned tree only): a lower-case encoded slash where the setting keeps or forbids
     encoded slashes *)
@@ -657,19 +689,21 @@ Definition on_param (g : slash -> request -> string -> bool) (sl : slash) (q : r
 Lemma has_enc_slash_unfold s : has_enc_slash s = contains "%2F" s || contains "%2f" s.
 Proof. reflexivity. Qed.
 
-Lemma param_semantics fx7 eng sl q keys vals p :
-  length keys = length vals -> Forall valid_enc vals ->
-  on_param guard_F6 sl q keys vals p = false ->
+Lemma param_semantics fx6 fx7 eng sl q keys vals p :
+  length keys = length vals -> Forall valid_enc vals -> Forall (from_path q) vals ->
+  on_param (guard_F6 fx6) sl q keys vals p = false ->
   on_param (guard_F7 fx7) sl q keys vals p = false ->
   on_param guard_F8 sl q keys vals p = false ->
-  param_match fx7 eng sl q keys vals p = of_bool (spec_param eng sl q keys vals p).
+  param_match fx6 fx7 eng sl q keys vals p = of_bool (spec_param eng sl q keys vals p).
 Proof.
-  intros Hl Hv. unfold on_param, param_match, spec_param.
+  intros Hl Hv Hfp. unfold on_param, param_match, spec_param.
   rewrite (assoc_index _ _ _ Hl).
   destruct (index_of (pp_name p) keys) as [i|] eqn:Ei; [|reflexivity].
   destruct (index_in_range _ _ _ _ Hl Ei) as (v & Ev). rewrite Ev.
   assert (Hvv : valid_enc v).
   { rewrite Forall_forall in Hv. apply Hv. eapply nth_error_In. exact Ev. }
+  assert (Hfv : from_path q v).
+  { rewrite Forall_forall in Hfp. apply Hfp. eapply nth_error_In. exact Ev. }
   destruct (spec_decode (keep_slash_of sl) v) as [d|] eqn:Ed.
   2:{ exfalso. apply (spec_decode_valid (keep_slash_of sl)) in Hvv. congruence. }
   unfold guard_F6, guard_F7, guard_F8, undecoded_val. rewrite Ed.
@@ -680,16 +714,26 @@ Proof.
     change (has_enc_slash "") with false. rewrite andb_false_r. reflexivity.
   - simpl negb. rewrite orb_false_r, !andb_true_l. destruct sl; simpl slash_eqb; simpl keep_slash_of in *.
     + (* off *)
-      rewrite andb_true_l. intros H6 H7 _. apply negb_false_iff, String.eqb_eq in H6. subst d.
-      rewrite has_enc_slash_unfold. unfold contains_enc_slash.
-      destruct fx7; cbn [negb andb] in *.
-      * destruct (contains "%2F" (q_rawpath q) || contains "%2f" (q_rawpath q)); reflexivity.
-      * rewrite H7, !orb_false_r. destruct (contains "%2F" (q_rawpath q)); reflexivity.
+      rewrite !andb_true_r. intros H6 H7 _.
+      assert (Ees : fx7 = true \/ contains "%2f" (q_rawpath q) = false).
+      { destruct fx7; [left; reflexivity | right; exact H7]. }
+      assert (Ece : contains_enc_slash fx7 (q_rawpath q) = has_enc_slash (q_rawpath q)).
+      { unfold contains_enc_slash. rewrite has_enc_slash_unfold.
+        destruct Ees as [-> | ->]; [reflexivity | rewrite andb_false_r; reflexivity]. }
+      rewrite Ece. destruct (has_enc_slash (q_rawpath q)) eqn:Eh; [reflexivity|].
+      destruct fx6; cbn [negb andb] in H6.
+      * (* repaired: the value is decoded; it has no encoded slash, so this is the specified decoding *)
+        assert (Hnv : has_enc_slash v = false).
+        { destruct (has_enc_slash v) eqn:E; [|reflexivity]. rewrite (Hfv E) in Eh. discriminate. }
+        change (keep_slash_of SOff) with true in Ed.
+        rewrite (keep_irrelevant _ Hnv), spec_decode_false in Ed.
+        unfold path_unescape. rewrite Ed. reflexivity.
+      * apply negb_false_iff, String.eqb_eq in H6. subst d. reflexivity.
     + (* on *)
       intros _ _ _.
       unfold path_unescape. rewrite spec_decode_false in Ed. rewrite Ed. reflexivity.
     + (* no_decode *)
-      intros _ H7. rewrite andb_true_l.
+      rewrite andb_false_r. intros _ H7. rewrite andb_true_l.
       change (keep_slash_of SNoDecode) with true in Ed. rewrite Ed. intro H8.
       rewrite (nd_decode _ _ _ Ed H7 H8). reflexivity.
 Qed.
@@ -698,18 +742,18 @@ Definition on_params (g : slash -> request -> string -> bool) (sl : slash) (q : 
            (keys vals : list string) (ps : list param) : bool :=
   existsb (on_param g sl q keys vals) ps.
 
-Lemma params_semantics fx7 eng sl q keys vals ps :
-  length keys = length vals -> Forall valid_enc vals ->
-  on_params guard_F6 sl q keys vals ps = false ->
+Lemma params_semantics fx6 fx7 eng sl q keys vals ps :
+  length keys = length vals -> Forall valid_enc vals -> Forall (from_path q) vals ->
+  on_params (guard_F6 fx6) sl q keys vals ps = false ->
   on_params (guard_F7 fx7) sl q keys vals ps = false ->
   on_params guard_F8 sl q keys vals ps = false ->
-  params_match fx7 eng sl q keys vals ps = of_bool (forallb (spec_param eng sl q keys vals) ps).
+  params_match fx6 fx7 eng sl q keys vals ps = of_bool (forallb (spec_param eng sl q keys vals) ps).
 Proof.
-  intros Hl Hv. unfold on_params. induction ps as [|p r IH]; simpl; [reflexivity|].
+  intros Hl Hv Hfp. unfold on_params. induction ps as [|p r IH]; simpl; [reflexivity|].
   intros H6 H7 H8.
   apply orb_false_iff in H6 as [H6 H6r]. apply orb_false_iff in H7 as [H7 H7r].
   apply orb_false_iff in H8 as [H8 H8r].
-  rewrite (param_semantics fx7 eng sl q keys vals p Hl Hv H6 H7 H8).
+  rewrite (param_semantics fx6 fx7 eng sl q keys vals p Hl Hv Hfp H6 H7 H8).
   destruct (spec_param eng sl q keys vals p); simpl; [exact (IH H6r H7r H8r) | reflexivity].
 Qed.
 
@@ -732,28 +776,28 @@ Qed.
 
 (** the matcher of a created route answers exactly as the documented conditions
     say, outside the guards of C03-F1, F4, F6, F7, F8, and never panics *)
-Lemma route_semantics fx7 eng r cr :
+Lemma route_semantics fx6 fx7 eng r cr :
   create_rule r = Ok cr ->
   forall path cm, In (path, cm) (cr_routes cr) ->
   exists rt, In rt (rl_routes r) /\ path = rt_path rt /\
     forall q keys vals,
-      length keys = length vals -> Forall valid_enc vals ->
+      length keys = length vals -> Forall valid_enc vals -> Forall (from_path q) vals ->
       guard_F1 eng (rl_hosts r) q = false ->
       guard_F4 (rl_methods r) = false ->
-      on_params guard_F6 (rl_slash r) q keys vals (rt_params rt) = false ->
+      on_params (guard_F6 fx6) (rl_slash r) q keys vals (rt_params rt) = false ->
       on_params (guard_F7 fx7) (rl_slash r) q keys vals (rt_params rt) = false ->
       on_params guard_F8 (rl_slash r) q keys vals (rt_params rt) = false ->
-      route_matches fx7 eng cm q keys vals =
+      route_matches fx6 fx7 eng cm q keys vals =
       of_bool (spec_route_ok eng r (rt_params rt) q keys vals).
 Proof.
   intros Hc path cm Hin.
   destruct (create_rule_inv _ _ Hc) as (mm & Hm & _ & _ & _ & _ & Hr).
   rewrite Hr in Hin. apply in_map_iff in Hin as (rt & E & Hrt). inversion E; subst path cm. clear E.
   exists rt. split; [assumption|]. split; [reflexivity|].
-  intros q keys vals Hl Hv H1 H4 H6 H7 H8.
+  intros q keys vals Hl Hv Hfp H1 H4 H6 H7 H8.
   unfold route_matches, spec_route_ok. simpl.
   rewrite scheme_semantics, (method_list_semantics _ _ q Hm H4), (hosts_semantics _ _ _ H1).
-  rewrite (params_semantics fx7 eng _ q keys vals _ Hl Hv H6 H7 H8).
+  rewrite (params_semantics fx6 fx7 eng _ q keys vals _ Hl Hv Hfp H6 H7 H8).
   destruct (spec_scheme (rl_scheme r) q); [|reflexivity].
   destruct (spec_method (rl_methods r) (q_method q)); [|reflexivity].
   destruct (spec_hosts eng (rl_hosts r) q); reflexivity.
@@ -880,7 +924,7 @@ Definition only_matcher (r : ruledef) : option cmatcher :=
 (** C03-F1: hosts [a.com, b.com]; GET http://a.com/a is not matched *)
 Lemma F1_refuted :
   exists r cm q, only_matcher r = Some cm /\ guard_F1 eng_none (rl_hosts r) q = true /\
-    route_matches true eng_none cm q [] [] = MNo /\ spec_route_ok eng_none r [] q [] [] = true.
+    route_matches true true eng_none cm q [] [] = MNo /\ spec_route_ok eng_none r [] q [] [] = true.
 Proof.
   exists (w_rule [] [w_exact "a.com"; w_exact "b.com"] [w_route "/a" []] SOff).
   eexists. exists (w_req "GET" "a.com" "/a"). vm_compute. repeat split.
@@ -889,23 +933,25 @@ Qed.
 (** C03-F4: methods ["!GET"]; GET /a is matched *)
 Lemma F4_refuted :
   exists r cm q, only_matcher r = Some cm /\ guard_F4 (rl_methods r) = true /\
-    route_matches true eng_none cm q [] [] = MYes /\ spec_route_ok eng_none r [] q [] [] = false.
+    route_matches true true eng_none cm q [] [] = MYes /\ spec_route_ok eng_none r [] q [] [] = false.
 Proof.
   exists (w_rule ["!GET"] [] [w_route "/a" []] SOff).
   eexists. exists (w_req "GET" "h" "/a"). vm_compute. repeat split.
 Qed.
 
-(** C03-F6: /file/:name with path_params name = exact "A" (off); GET /file/%41 is not matched *)
-Lemma F6_refuted :
+(** C03-F6 (pinned tree, before commit 72ba5d4): /file/:name with path_params name = exact "A"
+    (off); GET /file/%41 is not matched *)
+Lemma F6_pinned_refuted :
   exists r ps cm q keys vals, only_matcher r = Some cm /\ cm_params cm = ps /\
-    length keys = length vals /\ Forall valid_enc vals /\
-    on_params guard_F6 (rl_slash r) q keys vals ps = true /\
-    route_matches true eng_none cm q keys vals = MNo /\ spec_route_ok eng_none r ps q keys vals = true.
+    length keys = length vals /\ Forall valid_enc vals /\ Forall (from_path q) vals /\
+    on_params (guard_F6 false) (rl_slash r) q keys vals ps = true /\
+    route_matches false true eng_none cm q keys vals = MNo /\ spec_route_ok eng_none r ps q keys vals = true.
 Proof.
   exists (w_rule [] [] [w_route "/file/:name" [{| pp_name := "name"; pp_tm := w_exact "A" |}]] SOff).
   eexists. eexists. exists (w_req "GET" "h" "/file/%41"), ["name"], ["%41"].
   split; [vm_compute; reflexivity|]. split; [reflexivity|]. split; [reflexivity|].
   split; [constructor; [unfold valid_enc; vm_compute; discriminate | constructor]|].
+  split; [constructor; [intro H; vm_compute in H; discriminate | constructor]|].
   vm_compute. repeat split.
 Qed.
 
@@ -945,10 +991,11 @@ Qed.
 Lemma route_semantics_nonvacuous :
   exists r cm q keys vals,
     only_matcher r = Some cm /\ length keys = length vals /\ Forall valid_enc vals /\
+    Forall (from_path q) vals /\
     guard_F1 eng_none (rl_hosts r) q = false /\ guard_F4 (rl_methods r) = false /\
-    on_params guard_F6 (rl_slash r) q keys vals (cm_params cm) = false /\
+    on_params (guard_F6 true) (rl_slash r) q keys vals (cm_params cm) = false /\
     on_params guard_F8 (rl_slash r) q keys vals (cm_params cm) = false /\
-    route_matches true eng_none cm q keys vals = MYes.
+    route_matches true true eng_none cm q keys vals = MYes.
 Proof.
   exists {| rl_scheme := "http"; rl_methods := ["ALL"; "!TRACE"]; rl_hosts := [w_exact "a.com"];
             rl_routes := [w_route "/file/:name" [{| pp_name := "name"; pp_tm := w_exact "[id]%2Fx" |}]];
@@ -956,6 +1003,7 @@ Proof.
   eexists. exists (w_req "PUT" "a.com" "/file/%5Bid%5D%2Fx"), ["name"], ["%5Bid%5D%2Fx"].
   split; [vm_compute; reflexivity|]. split; [reflexivity|].
   split; [constructor; [unfold valid_enc; vm_compute; discriminate | constructor]|].
+  split; [constructor; [intros _; vm_compute; reflexivity | constructor]|].
   vm_compute. repeat split.
 Qed.
 
@@ -1024,18 +1072,18 @@ Lemma route_matches_iff eng r cr :
   forall path cm, In (path, cm) (cr_routes cr) ->
   exists rt, In rt (rl_routes r) /\ path = rt_path rt /\
     forall q keys vals,
-      length keys = length vals -> Forall valid_enc vals ->
+      length keys = length vals -> Forall valid_enc vals -> Forall (from_path q) vals ->
       guard_F1 eng (rl_hosts r) q = false ->
       guard_F4 (rl_methods r) = false ->
-      on_params guard_F6 (rl_slash r) q keys vals (rt_params rt) = false ->
+      on_params (guard_F6 true) (rl_slash r) q keys vals (rt_params rt) = false ->
       on_params guard_F8 (rl_slash r) q keys vals (rt_params rt) = false ->
-      route_matches true eng cm q keys vals =
+      route_matches true true eng cm q keys vals =
       of_bool (spec_scheme (rl_scheme r) q && spec_method (rl_methods r) (q_method q) &&
                spec_hosts eng (rl_hosts r) q &&
                forallb (spec_param eng (rl_slash r) q keys vals) (rt_params rt)).
 Proof.
-  intros Hc path cm Hin. destruct (route_semantics true eng r cr Hc path cm Hin) as (rt & H1 & H2 & H3).
+  intros Hc path cm Hin. destruct (route_semantics true true eng r cr Hc path cm Hin) as (rt & H1 & H2 & H3).
   exists rt. split; [exact H1|]. split; [exact H2|].
-  intros q keys vals Hl Hv G1 G4 G6 G8.
-  exact (H3 q keys vals Hl Hv G1 G4 G6 (guard_F7_fixed _ _ _ _ _) G8).
+  intros q keys vals Hl Hv Hfp G1 G4 G6 G8.
+  exact (H3 q keys vals Hl Hv Hfp G1 G4 G6 (guard_F7_fixed _ _ _ _ _) G8).
 Qed.
